@@ -14,7 +14,8 @@ import (
 // schemaMode selects how services are registered (C20):
 // 0 generated code (NewService by name); 1 NewServiceWithSchema from a freshly built copy of the
 // descriptors (protodesc, generated option types); 2 the same but with the google.api.http option
-// parsed into dynamic messages of another descriptor instance, and a resolver that knows no types
+// parsed into dynamic messages of another descriptor instance, and a resolver that knows no type by name
+// (so request and response messages are dynamic) but resolves the type URLs inside Any values
 var schemaMode int
 
 var dynOnce sync.Once
@@ -70,8 +71,11 @@ type emptyResolver struct{}
 func (emptyResolver) FindMessageByName(protoreflect.FullName) (protoreflect.MessageType, error) {
 	return nil, protoregistry.NotFound
 }
-func (emptyResolver) FindMessageByURL(string) (protoreflect.MessageType, error) {
-	return nil, protoregistry.NotFound
+func (emptyResolver) FindMessageByURL(url string) (protoreflect.MessageType, error) {
+	// what sits inside a google.protobuf.Any (error details) is not part of the service's schema:
+	// a resolver that could not expand it would change behaviour for a reason that has nothing to
+	// do with how the schema was loaded
+	return protoregistry.GlobalTypes.FindMessageByURL(url)
 }
 func (emptyResolver) FindExtensionByName(protoreflect.FullName) (protoreflect.ExtensionType, error) {
 	return nil, protoregistry.NotFound
